@@ -2,7 +2,7 @@
 import random, json, os, tempfile, shutil, copy, hashlib, math
 from common import *
 
-RULE = ("fixed histories (entry written under a higher threshold read under a lower one and vice versa for MCS results with a confidence in between; atom-map removal switched off/on; each also with ONE Balancer object re-used and its public attributes set between runs) and random histories of 3-6 rebalancing runs over ONE shared cache directory (temp dir outside /repo and /verif): inputs drawn with "
+RULE = ("fixed histories (entry written under a higher threshold read under a lower one and vice versa for MCS results with a confidence in between; atom-map removal switched off/on; the same reactions as bare strings and as rows carrying further columns named like output columns; each also with ONE Balancer object re-used and its public attributes set between runs) and random histories of 3-6 rebalancing runs over ONE shared cache directory (temp dir outside /repo and /verif): inputs drawn with "
         "overlap from a pool of cheap reactions and two MCS-stage reactions, batch size in {None,1,2,3,5}, threshold in {0, 0.5, 0.9, 1}, "
         "list-of-str / list-of-dict with the default or a renamed reaction column; between runs an existing entry is replaced by what a "
         "killed write can leave (absent, empty, a truncated prefix -- quick: 40 offsets, thorough: EVERY prefix of one entry --, garbage, "
@@ -90,6 +90,9 @@ def one_run(cfg, inputs, cache_dir, reuse=None):
     from synrbl import Balancer
     col = cfg["col"]
     data = [({col: s} if cfg["dict"] or col != "reaction" else s) for s in inputs]
+    if cfg.get("extra"):
+        # rows that carry further columns, some named like output columns (the records of an earlier result file fed back in)
+        data = [dict({col: s}, **{k: copy.deepcopy(v) for k, v in cfg["extra"].items()}) for s in inputs]
     st = {}
     if reuse is not None and reuse.get("col") == col and cache_dir is not None:
         b = reuse["obj"]
@@ -127,6 +130,11 @@ def run(ctx):
         return {"t": t, "bs": bs, "col": "reaction", "dict": False, "aam": aam}
     fixed = [[(F(0.5), M), (F(0), M)], [(F(0), M), (F(0.5), M), (F(0.1), M)], [(F(0.9), M[:2]), (F(0.2), M[:2]), (F(0.9), M[:2])],
              [(F(0, aam=True), M), (F(0, aam=False), M), (F(0, aam=True), M)]]
+    # the same reactions as bare strings and as rows with further columns (an entry of the one form must not be served to the other)
+    X = ["CC(=O)O.CCO>>CC(=O)OCC.O", "CCBr.O>>CCO", "CC(=O)C>>CC(O)C", "CC>>CCC"]
+    ann = dict(F(0), extra={"confidence": 0.5, "rules": ["from-file"], "issue": "old issue", "solved_by": "someone", "note": "n1"})
+    ann2 = dict(F(0), extra={"note": "n2", "issue": "another"})
+    fixed += [[(F(0), X), (ann, X), (F(0), X)], [(ann, X), (F(0), X), (ann2, X), (ann, X)]]
     for fi, fh in enumerate(fixed + fixed):
         reuse = {} if fi >= len(fixed) else None
         tmp = tempfile.mkdtemp(prefix="synrbl_c12f_")
